@@ -1245,13 +1245,22 @@ pub fn connected_udp(spec: &crate::Spec) -> Report {
     // only histories in which the peer is away at some point add to what the other checks cover
     hists.retain(|h| h.contains(&Op::Down) && h.contains(&Op::Emit));
     let tx = UdpSocket::bind("127.0.0.1:0").unwrap();
+    // While the peer is away its port is free, and the sink keeps sending to it: with several harness
+    // processes at work the kernel can hand that port to somebody else's receiver (seen once under load:
+    // a datagram of a neighbouring instance arrived here and was reported as foreign bytes). The whole
+    // 127/8 block is local, so every process runs this engine on a loopback address of its own; ports
+    // bound to a specific address only receive what is addressed to it.
+    let pid = std::process::id();
+    let own = format!("127.{}.{}.{}:0", 1 + pid % 250, (pid / 250) % 250, 2 + (pid / 62_500) % 250);
+    let own = if UdpSocket::bind(own.as_str()).is_ok() { own } else { "127.0.0.1:0".to_string() };
+    rep.flag(if own.starts_with("127.0.0.1:") { "shared-loopback-address" } else { "own-loopback-address" });
     'hist: for h in &hists {
         rep.traces += 1;
-        let first = UdpSocket::bind("127.0.0.1:0").unwrap();
+        let first = UdpSocket::bind(own.as_str()).unwrap();
         first.set_read_timeout(Some(Duration::from_secs(15))).unwrap();
         let addr = first.local_addr().unwrap();
         let mut peer: Option<Rx> = Some(Rx::Udp(first, tx.try_clone().unwrap()));
-        let sock = UdpSocket::bind("127.0.0.1:0").unwrap();
+        let sock = UdpSocket::bind(own.as_str()).unwrap();
         sock.connect(addr).unwrap();
         let sink: Box<dyn MetricSink> = match cap {
             None => Box::new(UdpMetricSink::from(addr, sock).unwrap()),
